@@ -95,12 +95,56 @@ NAME_SCHEMES = [
 for _sch in NAME_SCHEMES:
     for _k, _v in _sch.items():
         DIM.setdefault(_v, DIM[_k])
-_CTX = dict(names={}, rev=False)
+_CTX = dict(names={}, rev=False, scale=Fr(1), numstyle=None)
+SPATIAL = ("x", "y", "z")          # coordinates that the length scale of a case applies to (not the product variable s, not parameters)
 
 
 def set_naming(case):
+    """the case's configuration at the boundary to the library: variable names, column order, LENGTH SCALE (all lengths of the
+    canonical expression are multiplied by it when the library objects are built, returned coordinates are divided by it before
+    they are judged) and NUMBER STYLE of constant shape parameters (python ints, integer / 0-d tensors, numpy numbers)"""
     _CTX["names"] = dict(case.get("names") or {})
     _CTX["rev"] = bool(case.get("param_order_reversed"))
+    _CTX["scale"] = Fr(case.get("scale") or 1)
+    _CTX["numstyle"] = case.get("numstyle")
+
+
+def lam():
+    return float(_CTX["scale"])
+
+
+def scale_node(node):
+    """every length of the expression times the case's scale: points, radii, bounds, translations, rotation centres (not the
+    rotation matrix)"""
+    lam_ = _CTX["scale"]
+    if lam_ == 1:
+        return node
+    def sc(p):
+        return PF([("*", geomgen.c(lam_), t) for t in p.terms])
+    k = node.kind
+    if k == "rotate":
+        pfs = [node.pfs[0], sc(node.pfs[1])]
+    else:
+        pfs = [sc(p) for p in node.pfs]
+    if k == "interval" and node.var not in SPATIAL:
+        pfs = node.pfs
+    return Node(k, node.var, pfs, [scale_node(x) for x in node.kids], dict(node.flags))
+
+
+def styled(vals, scalar):
+    """constant integral shape parameters in the case's number style"""
+    import torch
+    st = _CTX["numstyle"]
+    iv = [int(v) for v in vals]
+    if st == "int":
+        return iv[0] if scalar else iv
+    if st == "int64":
+        return torch.tensor(iv[0] if scalar else iv, dtype=torch.int64)
+    if st == "t0d":
+        return torch.tensor(float(iv[0])) if scalar else torch.tensor([float(v) for v in iv])
+    if st == "np":
+        return np.int64(iv[0]) if scalar else np.array(iv)
+    raise ValueError(st)
 
 
 def nm(v):
@@ -458,7 +502,7 @@ def fibre_volume_poly(a, env, svar):
 
 def build_tp(node, tp):
     """the library object of an expression, with the variable names of the case's naming scheme"""
-    return _build_tp(rename_node(node), tp)
+    return _build_tp(rename_node(scale_node(node)), tp)
 
 
 def _build_tp(node, tp):
@@ -467,6 +511,15 @@ def _build_tp(node, tp):
     k = node.kind
     D = tp.domains
     if k in PRIMS:
+        consts = all(t[0] == "c" and Fr(t[1]).denominator == 1 for p in node.pfs for t in p.terms)
+        if _CTX["numstyle"] and consts:
+            vals = [[t[1] for t in p.terms] for p in node.pfs]
+            sp = node.space(tp)
+            if k == "interval":
+                return D.Interval(sp, styled(vals[0], True), styled(vals[1], True))
+            if k in ("par", "tri"):
+                return (D.Parallelogram if k == "par" else D.Triangle)(sp, *[styled(v, False) for v in vals])
+            return (D.Circle if k == "circle" else D.Sphere)(sp, styled(vals[0], False), styled(vals[1], True))
         return node.to_tp(tp)
     kids = [_build_tp(x, tp) for x in node.kids]
     if k == "union":
@@ -605,6 +658,8 @@ def shp(node, env):
 
 def grid_cells(geom, dim, g):
     from shapely.geometry import box
+    if geom.is_empty or not all(math.isfinite(b_) for b_ in geom.bounds):
+        raise DegenerateCase("empty region")
     x0, y0, x1, y1 = geom.bounds
     if dim == 1:
         return [box(x0 + (x1 - x0) * i / g, 0.0, x0 + (x1 - x0) * (i + 1) / g, 1.0) for i in range(g)], (x0, y0, x1, y1)
@@ -690,8 +745,11 @@ def gen_csg_node(rng, params, prows, depth):
             ok = True
             for e in envs:
                 geom = shp(node, e)
-                x0, y0, x1, y1 = geom.bounds if not geom.is_empty else (0, 0, 0, 0)
-                if geom.is_empty or geom.area < 0.08 * (x1 - x0) * (y1 - y0) or geom.area < 0.05:
+                if not region_ok(geom):
+                    ok = False
+                    break
+                x0, y0, x1, y1 = geom.bounds
+                if geom.area < 0.08 * (x1 - x0) * (y1 - y0) or geom.area < 0.05:
                     ok = False
                 # every rejection step must keep a decent share (else sampling is slow, not wrong)
                 for sub in subtrees(node):
@@ -848,8 +906,29 @@ def make_cases(ctx):
 
     def add(kind, node, params, prows, **kw):
         sch = rng.choice(NAME_SCHEMES) if rng.random() < 0.6 else {}
+        extra = {}
+        if kind in ("tape", "law", "csg", "union", "prod", "evalhist", "gridx") and "numstyle" not in kw and rng.random() < (0.5 if kind == "union" else 0.3):
+            extra["scale"] = str(rng.choice([Fr(1, 10 ** 6), Fr(1, 10 ** 6), Fr(1, 1000), Fr(1000), Fr(10 ** 6)]))      # length scales 1e-6 ... 1e6
         cases.append(dict(id=len(cases), kind=kind, dom=node.describe(), params=params, prows=prows_json(prows),
-                          seed=rng.randint(0, 2 ** 31 - 1), names=sch, param_order_reversed=rng.random() < 0.3, **kw))
+                          seed=rng.randint(0, 2 ** 31 - 1), names=sch, param_order_reversed=rng.random() < 0.3, **extra, **kw))
+
+    def int_prim(kinds=("interval", "par", "tri", "circle", "sphere")):
+        """a primitive all of whose shape parameters are integers, and a number style for them"""
+        k_ = rng.choice(list(kinds))
+        ci = lambda lo, hi: geomgen.c(rng.randint(lo, hi))
+        if k_ == "interval":
+            lo_ = rng.randint(-3, 2)
+            n_ = Node("interval", "y", [PF([geomgen.c(lo_)]), PF([geomgen.c(lo_ + rng.randint(1, 4))])])
+        elif k_ in ("par", "tri"):
+            ox, oy, w_, h_ = rng.randint(-3, 2), rng.randint(-3, 2), rng.randint(1, 4) * rng.choice([1, -1]), rng.randint(1, 4) * rng.choice([1, -1])
+            sh_ = rng.choice([0, 0, 1])
+            n_ = Node(k_, "x", [PF([geomgen.c(ox), geomgen.c(oy)]), PF([geomgen.c(ox + w_), geomgen.c(oy)]), PF([geomgen.c(ox + sh_), geomgen.c(oy + h_)])])
+        elif k_ == "circle":
+            n_ = Node("circle", "x", [PF([ci(-3, 3), ci(-3, 3)]), PF([ci(1, 3)])])
+        else:
+            n_ = Node("sphere", "z", [PF([ci(-2, 2), ci(-2, 2), ci(-2, 2)]), PF([ci(1, 3)])])
+        st_ = rng.choice(["int", "t0d", "np"] + (["int64"] if k_ in ("interval", "circle", "sphere") else []))
+        return n_, st_
 
     def pr():
         params = rng.choice([[], ["t"], ["t"], ["t", "D"]])
@@ -888,8 +967,8 @@ def make_cases(ctx):
                 # both the kept and the removed part must be substantial at every parameter row (else the filtered sampler gives up)
                 for r_ in (prows or [{}]):
                     g_ = shp(node, fenv(r_))
-                    kept = csg_probs(node, fenv(r_), DIM[node.vars()[0]], 2, flt)[3]
-                    if not (0.2 * g_.area <= kept <= 0.8 * g_.area):
+                    kept_geom = clip_geom(g_, flt)
+                    if not region_ok(kept_geom) or not (0.2 * g_.area <= kept_geom.area <= 0.8 * g_.area):
                         flt = None
                         break
             add("csg", node, params, prows, N=ctx.scale(60000, 120000), n_small=rng.choice([2, 3, 7, 40]), filter=flt,
@@ -1043,6 +1122,33 @@ def make_cases(ctx):
             if i < ctx.scale(2, 10):      # the same boundary, a few points per call (known finding)
                 add("boolbdry", node, [], [], N=0, api="dom.n", set_volume=True, small_n=rng.choice([2, 10]), calls=ctx.scale(800, 4000))
             break
+    # 8d. integer-valued shape parameters in several number styles (python ints, int64 / 0-d tensors, numpy) for every law
+    for i in range(ctx.scale(16, 160)):
+        pick = ["law", "tape", "lhs", "gauss", "gridx", "lhs", "law", "lhs"][i % 8]
+        if pick == "law":
+            n_, st_ = int_prim()
+            if rng.random() < 0.3 and st_ != "int64":
+                n_ = Node("bdry", None, [], [n_])
+            add("law", n_, [], [], N=NBIG, api=rng.choice(["dom.n", "smp.n"]), numstyle=st_)
+        elif pick == "tape":
+            n_, st_ = int_prim()
+            add("tape", n_, [], [], n=rng.choice([1, 3, 7]), numstyle=st_)
+        elif pick == "gridx":
+            n_, st_ = int_prim(("par", "tri", "circle", "sphere"))
+            add("gridx", n_, [], [], n=rng.choice([1, 3, 10, 100, 400]), api=rng.choice(["dom.grid", "smp.grid"]), numstyle=st_)
+        elif pick == "gauss":
+            n_, st_ = int_prim(("interval",))
+            add("gauss", n_, [], [], N=ctx.scale(40000, 100000), n_small=rng.choice([3, 7]), std_factor=float(rng.choice([Fr(3, 8), Fr(3, 4)])),
+                off=[float(dy(rng, -0.75, 0.75)) for _ in range(2)], numstyle=st_)
+        else:
+            if rng.random() < 0.5:
+                n_, st_ = int_prim(("interval",))
+                add("lhs", n_, [], [], n=rng.choice([2, 3, 8, 16, 64]), calls=rng.choice([1, 2]), setbox=False, numstyle=st_)
+            else:
+                (a_, _), (b_, _) = int_prim(("interval",)), int_prim(("interval",))
+                b_ = Node("interval", "s", b_.pfs)
+                add("lhs", Node("prod", None, [], [a_, b_]), [], [], n=rng.choice([2, 3, 8, 16, 64]), calls=rng.choice([1, 2]), setbox=True,
+                    numstyle=rng.choice(["int", "t0d"]))
     # 9. grids of every primitive, primitive boundary and the polygon: extreme aspect ratios / sizes, n from 1 to 1000
     for i in range(ctx.scale(70, 700)):
         n = rng.choice([1, 2, 3, 5, 10, 30, 100, 100, 400, 1000])
@@ -1067,9 +1173,11 @@ def make_cases(ctx):
             api = "dom.grid.d"
         add("gridx", node, params, prows, n=n, api=api)
     # 10. ShapelyPolygon: random uniform law
-    for i in range(ctx.scale(4, 40)):
-        cases.append(dict(id=len(cases), kind="poly", dom=None, poly=rng.choice(sorted(POLYGONS)), polybdry=(i % 2 == 1), params=[], prows=[],
-                          N=ctx.scale(6000, 30000), seed=rng.randint(0, 2 ** 31 - 1), names=rng.choice(NAME_SCHEMES), param_order_reversed=False))
+    for i in range(ctx.scale(6, 60)):
+        k_ = [0, 2, 3][i % 3]        # polygons cannot depend on parameters, but are sampled for several parameter rows: every block of rows must be uniform
+        cases.append(dict(id=len(cases), kind="poly", dom=None, poly=rng.choice(sorted(POLYGONS)), polybdry=(i % 2 == 1), params=["t"] if k_ else [],
+                          prows=prows_json(gen_prows(rng, ["t"], k_)), api=rng.choice(["dom.n", "smp.n"]),
+                          N=ctx.scale(5000, 25000), seed=rng.randint(0, 2 ** 31 - 1), names=rng.choice(NAME_SCHEMES), param_order_reversed=False))
     for d_ in (1, 2, 3):
         cases.append(dict(id=len(cases), kind="poly", dom=None, point=[str(dy(rng, -2, 2)) for _ in range(d_)], params=[], prows=[], seed=0,
                           names=rng.choice(NAME_SCHEMES), param_order_reversed=False))
@@ -1089,7 +1197,8 @@ def coords_of(node, res, n_rows):
     """columns of the node's own coordinates as float64 array (N, dim), in the node's variable order"""
     cols = []
     for v in node.vars():
-        cols.append(res.coordinates[nm(v)].detach().double().numpy().reshape(n_rows, -1))
+        col = res.coordinates[nm(v)].detach().double().numpy().reshape(n_rows, -1)
+        cols.append(col / lam() if v in SPATIAL else col)
     return np.concatenate(cols, axis=1)
 
 
@@ -1122,7 +1231,7 @@ def _sample_big_inner(tp, dom, node, case, api, N, params, k, S, out):
         col, thr, sense = case["filter"]
         var = nm(node.vars()[0])
         ns = {}
-        exec(f"def _flt({var}):\n    return ({var}[:, {col}:{col + 1}] {'>=' if sense else '<='} {float(Fr(thr))!r})\n", ns)
+        exec(f"def _flt({var}):\n    return ({var}[:, {col}:{col + 1}] {'>=' if sense else '<='} {float(Fr(thr) * _CTX['scale'])!r})\n", ns)
         res = common.call_with_timeout(TIMEOUT, lambda: S.RandomUniformSampler(dom, n_points=N, filter_fn=ns["_flt"]).sample_points(params))
         X = coords_of(node, res, len(res))
         kk = max(k, 1)
@@ -1362,15 +1471,34 @@ def run_law(tp, rep, case):
     law_tests(rep, case, node, Xs)
 
 
+class DegenerateCase(Exception):
+    """a generated case whose region is empty / of negligible measure at one of its parameter rows: a generator miss, never a
+    verdict about the library (counted and skipped)"""
+
+
+def clip_geom(geom, flt):
+    """the part of a region that a half-space filter keeps (RandomUniformSampler(filter_fn=half space))"""
+    from shapely.geometry import box
+    if not flt or geom.is_empty:
+        return geom
+    col, thr, sense = flt[0], float(Fr(flt[1])), flt[2]
+    x0, y0, x1, y1 = geom.bounds
+    half = (box(thr, y0 - 1, x1 + 1, y1 + 1) if sense else box(x0 - 1, y0 - 1, thr, y1 + 1)) if col == 0 else \
+           (box(x0 - 1, thr, x1 + 1, y1 + 1) if sense else box(x0 - 1, y0 - 1, x1 + 1, thr))
+    return geom.intersection(half)
+
+
+def region_ok(geom):
+    if geom.is_empty or not all(math.isfinite(b) for b in geom.bounds):
+        return False
+    x0, y0, x1, y1 = geom.bounds
+    return x1 > x0 and y1 > y0 and geom.area > 1e-9
+
+
 def csg_probs(node, env, dim, g=6, flt=None):
-    geom = shp(node, env)
-    if flt:     # RandomUniformSampler(filter_fn=half space): uniform on the domain conditioned to the half space
-        from shapely.geometry import box
-        col, thr, sense = flt[0], float(Fr(flt[1])), flt[2]
-        x0, y0, x1, y1 = geom.bounds
-        half = (box(thr, y0 - 1, x1 + 1, y1 + 1) if sense else box(x0 - 1, y0 - 1, thr, y1 + 1)) if col == 0 else \
-               (box(x0 - 1, thr, x1 + 1, y1 + 1) if sense else box(x0 - 1, y0 - 1, x1 + 1, thr))
-        geom = geom.intersection(half)
+    geom = clip_geom(shp(node, env), flt)
+    if not region_ok(geom):
+        raise DegenerateCase(f"region empty or degenerate at the parameter row {env}")
     cells, bounds = grid_cells(geom, dim, g)
     areas = [geom.intersection(c).area for c in cells]
     tot = sum(areas)
@@ -1533,7 +1661,7 @@ def run_union(tp, rep, case, lines, posts):
         # library's warning recommends (feature crossing: union mixture x user-set operand volume)
         o = build_tp(x, tp)
         if case.get("setvol_operands") and x.kind in ("cut", "inter"):
-            o.set_volume(shp(x, {}).area)
+            o.set_volume(shp(x, {}).area * lam() ** dim)      # the measure of the operand as the library sees it (scaled lengths)
         return o
     pdom = UnionDomain(Proxy(operand(a), log, "A"), Proxy(operand(b), log, "B"), disjoint=bool(node.flags.get("disjoint")))
     n = case["n_small"]
@@ -1823,7 +1951,9 @@ def run_lhs(tp, rep, case, lines, posts):
     n = case["n"]
     dom = build_tp(node, tp)
     if case.get("setbox"):
-        dom.set_bounding_box([float(x) for lo_hi in box_bounds(node, {}) for x in lo_hi])
+        bb_ = [x for lo_hi in box_bounds(node, {}) for x in lo_hi]
+        dom.set_bounding_box([int(x) for x in bb_] if case.get("numstyle") == "int" and all(Fr(x).denominator == 1 for x in bb_)
+                             else [float(x) for x in bb_])
     sampler = tp.samplers.LHSSampler(dom, n_points=n)
     for call in range(case.get("calls", 1)):
         torch.manual_seed(case["seed"] + call)
@@ -2348,7 +2478,12 @@ def run_boolbdry(tp, rep, case):
     on_a = line.intersection(A_line.buffer(eps))
     on_b = line.intersection(B_line.buffer(eps)).difference(A_line.buffer(eps))
     g = 4
-    cells, bounds = grid_cells(solid, 2, g)
+    # grid lines must not run along an edge (a LINE lying on a cell border would be counted in both cells): the grid is laid over
+    # the bounding box enlarged by incommensurable margins, so that its lines miss the dyadic coordinates of the generator
+    from shapely.geometry import box as _box
+    bx0, by0, bx1, by1 = solid.bounds
+    wx, wy = bx1 - bx0, by1 - by0
+    cells, bounds = grid_cells(_box(bx0 - 0.01371 * wx, by0 - 0.02913 * wy, bx1 + 0.03117 * wx, by1 + 0.01733 * wy), 2, g)
     da, db = prim_bdry_dist(a, X - shift, env), prim_bdry_dist(b, X - shift, env)
     which = (db < da).astype(np.int64)
     off = int((np.minimum(da, db) > 1e-4 * max(1.0, V)).sum())
@@ -2530,7 +2665,7 @@ def run_gridx(tp, rep, case):
             res = common.call_with_timeout(TIMEOUT, lambda: dom.sample_grid(d=dens, params=params))
         else:
             res = common.call_with_timeout(TIMEOUT, lambda: dom.sample_grid(n=n, params=params))
-    P = np.concatenate([res.coordinates[nm(v)].detach().double().numpy().reshape(len(res), DIM[v]) for v in names], axis=1)
+    P = np.concatenate([res.coordinates[nm(v)].detach().double().numpy().reshape(len(res), DIM[v]) for v in names], axis=1) / lam()
     what = f"{case['api']}(n={n}) of " + ((f"the outline of the polygon" if case.get("polybdry") else "the polygon") + f" '{case['poly']}'" if case.get("poly") else node.tokens())
     if dens is not None:
         # with a density the number of points is ceil(d * volume) at most (meshes may hold fewer nodes): evenness relative to what came back
@@ -2580,41 +2715,44 @@ def run_poly(tp, rep, case):
         return
     vs = POLYGONS[case["poly"]]
     dom = ShapelyPolygon(tp.spaces.R2(nm("x")), vertices=[list(map(float, v)) for v in vs])
-    if case.get("polybdry"):
-        torch.manual_seed(case["seed"])
-        N = case["N"]
-        res = common.call_with_timeout(TIMEOUT, lambda: dom.boundary.sample_random_uniform(n=N))
-        X = res.coordinates[nm("x")].detach().double().numpy()
-        idx, probs, labels = poly_edge_partition(vs, X, sub=3)
+    prows = prows_of(case)
+    params = mk_params(tp, case["params"], prows)
+    kk = max(len(prows), 1)
+    N = case["N"]
+    torch.manual_seed(case["seed"])
+    target = dom.boundary if case.get("polybdry") else dom
+    if case.get("api") == "smp.n":
+        res = common.call_with_timeout(TIMEOUT, lambda: tp.samplers.RandomUniformSampler(target, n_points=N).sample_points(params))
+    else:
+        res = common.call_with_timeout(TIMEOUT, lambda: target.sample_random_uniform(n=N, params=params))
+    Xall = res.coordinates[nm("x")].detach().double().numpy()
+    what = ("outline of the polygon" if case.get("polybdry") else "ShapelyPolygon") + f" '{case['poly']}'"
+    if len(Xall) != N * kk:
+        rep.fail(f"{what}: sample_random_uniform(n={N}) returned {len(Xall)} rows for {len(prows)} parameter rows", inp_of(case))
+        return
+    poly = Polygon(vs)
+    for i in range(kk):          # the rows i*N ... (i+1)*N - 1 belong to parameter row i: each block must follow the law
+        X = Xall[i * N:(i + 1) * N]
+        rowtxt = f" (rows of parameter row {i + 1} of {kk})" if kk > 1 else ""
         rep.count("chi2-tests")
-        if len(X) != N or (idx < 0).any():
-            rep.fail(f"outline of the polygon '{case['poly']}': sample_random_uniform(n={N}) returned {len(X)} rows, {int((idx < 0).sum())} of them off the outline", inp_of(case))
-            return
+        if case.get("polybdry"):
+            idx, probs, labels = poly_edge_partition(vs, X, sub=3)
+            if (idx < 0).any():
+                rep.fail(f"{what}{rowtxt}: {int((idx < 0).sum())} of {N} sampled points lie off the outline", inp_of(case))
+                return
+        else:
+            g = 6
+            cells, bounds = grid_cells(poly, 2, g)
+            probs = [poly.intersection(c).area / poly.area for c in cells]
+            idx = grid_index(X, bounds, 2, g)
+            labels = [f"grid cell {j} of the 6x6 partition of the bounding box" for j in range(len(probs))]
         v = chi2_decide(np.bincount(idx, minlength=len(probs)).tolist(), probs, labels)
         if not v["ok"]:
             w = v["worst"]
-            fail_law(rep, case, f"outline of the polygon '{case['poly']}': not uniform in arclength: '{w['cell']}' received {w['observed']} of {v['N']} points, "
-                     f"its length share gives {w['expected']} (chi-square {v['stat']} > {v['bound']})", {}, v)
-        return
-    torch.manual_seed(case["seed"])
-    N = case["N"]
-    res = common.call_with_timeout(TIMEOUT, lambda: dom.sample_random_uniform(n=N))
-    X = res.coordinates[nm("x")].detach().double().numpy()
-    if len(X) != N:
-        rep.fail(f"ShapelyPolygon '{case['poly']}': sample_random_uniform(n={N}) returned {len(X)} rows", inp_of(case))
-        return
-    poly = Polygon(vs)
-    g = 6
-    cells, bounds = grid_cells(poly, 2, g)
-    probs = [poly.intersection(c).area / poly.area for c in cells]
-    idx = grid_index(X, bounds, 2, g)
-    counts = np.bincount(idx, minlength=len(probs)).tolist()
-    rep.count("chi2-tests")
-    v = chi2_decide(counts, probs, [f"grid cell {j} of the 6x6 partition of the bounding box" for j in range(len(probs))])
-    if not v["ok"]:
-        w = v["worst"]
-        fail_law(rep, case, f"ShapelyPolygon '{case['poly']}': the sample is not uniform: {w['cell']} received {w['observed']} of {v['N']} points, its share "
-                 f"of the measure gives {w['expected']} (chi-square {v['stat']} > {v['bound']})", {}, v, extra=dict(counts=counts, probabilities=probs))
+            fail_law(rep, case, f"{what}{rowtxt}: the sample is not uniform: '{w['cell']}' received {w['observed']} of {v['N']} points, its share of the "
+                     f"measure gives {w['expected']} (chi-square {v['stat']} > {v['bound']})", row_env_json(case, i), v)
+            return
+    rep.count("poly:rows-uniform" + (":several-parameter-rows" if kk > 1 else ""))
 
 
 # =============================================================================================
@@ -2652,6 +2790,10 @@ def run(ctx, rep, cases=None):
         set_naming(cs)
         if cs.get("names"):
             rep.count("naming:" + "/".join(sorted(set(cs["names"].values()))))
+        if cs.get("scale"):
+            rep.count("length-scale:%.0e" % float(Fr(cs["scale"])) + ":" + kind)
+        if cs.get("numstyle"):
+            rep.count("number-style:" + cs["numstyle"] + ":" + kind)
         _t0 = time.time()
         try:
             if kind == "tape":
@@ -2685,6 +2827,10 @@ def run(ctx, rep, cases=None):
                 run_poly(tp, rep, cs)
             else:
                 raise ValueError(kind)
+        except DegenerateCase as e:
+            rep.count("generator:degenerate-case-skipped")
+            rep.notes.append(f"{kind} case {cs.get('id')} skipped: {e}")
+            continue
         except common.CallTimeout:
             rep.fail(f"{kind} case: the sampling call did not return within {TIMEOUT}s on a domain of positive measure", inp_of(cs))
             continue
